@@ -6,6 +6,7 @@ theorems say what the lexer model does with every constant of that grammar.
 import NormModel.Proofs.LiteralsLex
 import NormModel.Proofs.CharString
 import NormModel.Proofs.Floats
+import NormModel.Proofs.CharEscapes
 namespace Norm.C11
 open Norm Spec
 
@@ -142,6 +143,33 @@ theorem char_escape_valid (u : Uni) (pre : String) (hp : pre ∈ litPrefixes) (e
       t.value = some (String.ofList (pre.toList ++ ['\'', '\\', e, '\''])) ∧ t.line = s.line ∧ t.col = s.col ∧
       s'.rest = rest ∧ s'.diags = s.diags :=
   Norm.char_escape_valid u pre hp e he rest s hr
+
+/-- … an **octal escape sequence** (`'\0'`, `'\12'`, `'\177'`): one CHAR_CONST token spanning exactly the constant, no
+lexical diagnostic. (Like the code, the statement takes every octal digit that follows; C takes three at most and reads
+a fourth one as a second character.) -/
+theorem char_octal_valid (u : Uni) (pre : String) (hp : pre ∈ litPrefixes) (ds : List Char) (hne : ds ≠ [])
+    (hd : ∀ c ∈ ds, isOctal c = true) (rest : List Char) (s : LexSt)
+    (hr : s.rest = pre.toList ++ '\'' :: '\\' :: (ds ++ '\'' :: rest)) :
+    ∃ s' t, trySubLexers u s = .ok (some (s', t)) ∧ t.type = "CHAR_CONST" ∧
+      t.value = some (String.ofList (pre.toList ++ '\'' :: '\\' :: (ds ++ ['\'']))) ∧ t.line = s.line ∧ t.col = s.col ∧
+      s'.rest = rest ∧ s'.diags = s.diags :=
+  Norm.char_octal_valid u pre hp ds hne hd rest s hr
+
+/-- … a **hexadecimal escape sequence with any number of digits** (`'\x41'`, `'\x041'`, `L'\x1234'`): one CHAR_CONST
+token spanning exactly the constant, no lexical diagnostic. (The pinned code took two digits at most: 6443d9c.) -/
+theorem char_hex_valid (u : Uni) (pre : String) (hp : pre ∈ litPrefixes) (ds : List Char) (hne : ds ≠ [])
+    (hd : ∀ c ∈ ds, isHexDigit c = true) (rest : List Char) (s : LexSt)
+    (hr : s.rest = pre.toList ++ '\'' :: '\\' :: ('x' :: ds ++ '\'' :: rest)) :
+    ∃ s' t, trySubLexers u s = .ok (some (s', t)) ∧ t.type = "CHAR_CONST" ∧
+      t.value = some (String.ofList (pre.toList ++ '\'' :: '\\' :: ('x' :: ds ++ ['\'']))) ∧ t.line = s.line ∧ t.col = s.col ∧
+      s'.rest = rest ∧ s'.diags = s.diags :=
+  Norm.char_hex_valid u pre hp ds hne hd rest s hr
+
+/-- Non-vacuity: the digits of `\x041` and `\177`. -/
+example : (∀ c ∈ "041".toList, isHexDigit c = true) ∧ (∀ c ∈ "177".toList, isOctal c = true) ∧
+    ((lex {} "L'\\x1234' '\\x041'".toList).toOption.map (fun r => (r.tokens.map (·.type), r.diags.length))) =
+      some (["CHAR_CONST", "SPACE", "CHAR_CONST"], 0) := by
+  decide +kernel
 
 /-- **A string literal `pre " body "`** whose body (of any length) consists of characters other than
 the quote, the backslash, newline, tab and the digraph/trigraph starters **becomes one STRING
